@@ -234,6 +234,15 @@ def _call_sig(ctx, measure, arr, asig, dt, s, e, se, form="kw", defaults=False, 
             args, kw = lead, {"start": s, "end": e}
     else:
         f, lead = im.calc_sig_dur, (asig,)
+        if fn is not None:
+            # user measures are typically anonymous functions, and the same signal object is typically analysed with several
+            # of them in a row: an earlier call with ANOTHER anonymous measure must not influence this one
+            decoy = (lambda s: _m_count(s)) if measure != "count" else (lambda s: _m_cube(s))
+            try:
+                im.calc_sig_dur(asig, im=decoy)
+            except Exception:  # noqa  (the decoy's own precondition may fail on this record; irrelevant)
+                pass
+            fn = (lambda s, _f=fn: _f(s))
         if defaults:
             args, kw = lead, ({"se": se} if fn is None else {"im": fn, "se": se})
         elif form == "pos":
